@@ -244,7 +244,7 @@ func (p *Program) analyseHandle(fn *ssa.Function, create ssa.Instruction, h ssa.
 		return false
 	}
 	// the error edge right after a creation that also returns an error carries no handle
-	esc := p.EscapesWithout(fn, hit, mustOpts{start: create, skipErrEdges: true})
+	esc := p.EscapesWithout(fn, hit, mustOpts{start: create, skipErrEdges: true, errReturnsCount: true})
 	switch {
 	case esc != nil:
 		site.status, site.leakAt = "LEAK", esc
